@@ -38,7 +38,7 @@ Proof.
   destruct w as [d0 wt gt m c g k ca pb0 wr wd lo].
   cbn [d waiter gated mu cons cg closer cancelled pb wreturned wdelivered g_lost].
   intros H -> Hd. destruct c as [| | | |[|]| |b| |b| |]; cbn in H, Hd; try discriminate; cbn; auto;
-    try (rewrite !andb_false_r in H; discriminate).
+    try (rewrite !andb_false_r in H; discriminate);
   destruct (cstep d0) as [[? ?] [?|]]; auto.
 Qed.
 
@@ -121,6 +121,10 @@ Proof.
     + split; cbn; auto; discriminate.
     + rewrite Hwt. split; cbn; auto; discriminate.
     + split; cbn; auto. rewrite Ec; auto.
+    + destruct (cstep (d w)) as [[l d'] got] eqn:Ecs.
+      assert (Hl : length (prods d') = length (prods (d w))).
+      { revert Ecs. unfold cstep. destruct (nth _ _ _) as [[sq m]|]; [destruct (sq <? ri (d w))|]; intros H; inversion H; subst; auto. }
+      destruct got as [b|]; rewrite Hwt; split; cbn; auto; try congruence; discriminate.
   - (* cancel goroutine *)
     unfold cancel_step. destruct (cg w).
     + destruct (cancelled w); split; solve [exact Hlen|exact HP].
@@ -286,6 +290,12 @@ Proof.
     + repeat split; cbn; auto.
     + repeat split; cbn; auto. rewrite H1. destruct (waiter w); cbn; rewrite app_nil_r; auto.
     + repeat split; cbn; rewrite ?Ec; auto.
+    + destruct (cstep (d w)) as [[l d'] got] eqn:Ecs. destruct (cstep_logs _ _ _ _ Ecs) as (R & L & D).
+      destruct got as [b|].
+      * repeat split; cbn; rewrite ?R, ?D, ?map_app; try congruence; unfold bucket in *.
+        rewrite H1, app_nil_r. destruct (waiter w); reflexivity.
+      * destruct (waiter w); repeat split; cbn; rewrite ?R, ?D, ?map_app; try congruence; unfold bucket in *;
+          rewrite H1, !app_nil_r; reflexivity.
   - unfold cancel_step. destruct (cg w).
     + destruct (cancelled w); repeat split; auto.
     + destruct (mu w); repeat split; auto.
@@ -366,4 +376,139 @@ Lemma poller_not_stuck gt n ps sched : let w := wrun false gt n ps sched in
 Proof.
   intros w. apply poller_not_stuck_b; [apply wrun_inv|].
   unfold w, wrun. rewrite waiter_wexec. reflexivity.
+Qed.
+
+(* ------------------------------------------------------------------ *)
+(* C11 at the writer level: Close drains (repaired Next: one more       *)
+(* TryNext once the context is done)                                    *)
+(* ------------------------------------------------------------------ *)
+Definition exiting (c : cpc) : bool := match c with CUnlockNil | CDone => true | _ => false end.
+Definition is_trylast (c : cpc) : bool := match c with CTryLast => true | _ => false end.
+Definition is_kdone (k : kpc) : bool := match k with KDone => true | _ => false end.
+
+Record CInv (w : wst) : Prop := {
+  c_written : cancelled w = true -> all_written w = true;
+  c_last : is_trylast (cons w) = true -> cancelled w = true;
+  c_exit : exiting (cons w) = true -> drained (d w) = true /\ cancelled w = true;
+  c_closed : is_kdone (closer w) = true -> cons w = CDone }.
+
+Lemma all_written_no_step w p : all_written w = true -> prod_step w p = None.
+Proof.
+  unfold all_written, prod_step, producers_done. intros H. apply andb_true_iff in H as [H1 H2].
+  assert (E1 : nth p (pb w) None = None).
+  { destruct (nth_in_or_default p (pb w) None) as [Hin|E]; auto.
+    eapply forallb_forall in H2; eauto. destruct (nth p (pb w) None); cbn in *; auto; discriminate. }
+  rewrite E1. unfold pstep.
+  assert (E2 : nth p (prods (d w)) (PIdle []) = PIdle []).
+  { destruct (nth_in_or_default p (prods (d w)) (PIdle [])) as [Hin|E]; auto.
+    eapply forallb_forall in H1; eauto. destruct (nth p (prods (d w)) (PIdle [])) as [[|]| |]; cbn in *; auto; discriminate. }
+  rewrite E2. reflexivity.
+Qed.
+
+Lemma cstep_prods s : prods (snd (fst (cstep s))) = prods s.
+Proof. unfold cstep. destruct (nth _ (slots s) None) as [[sq m]|]; [destruct (sq <? ri s)|]; reflexivity. Qed.
+
+Lemma winit_cinv wt n ps : CInv (winit wt true n ps).
+Proof. constructor; cbn; try discriminate; destruct wt; cbn; discriminate. Qed.
+
+Lemma gated_exec1 w t : gated (wexec1 w t) = gated w.
+Proof.
+  unfold wexec1, wstep, cons_step, cancel_step, closer_step, prod_step. unfold wake. destruct t; wcrush.
+Qed.
+
+Ltac cfield J1 J2 J3 J4 :=
+  cbn; intros;
+  try discriminate; try congruence;
+  try (match goal with H : is_kdone _ = true |- _ => apply J4 in H; congruence end);
+  try (match goal with H : exiting _ = true |- _ => destruct (J3 H); split; auto; congruence end);
+  try (match goal with H : is_trylast _ = true |- _ => apply J2 in H; congruence end);
+  try (destruct (waiter _); cbn in *; discriminate);
+  try (unfold all_written, producers_done in *; cbn in *;
+       repeat match goal with H : prods _ = prods _ |- _ => rewrite H end; auto; fail);
+  try (split; auto; fail);
+  auto.
+
+Lemma wstep_cinv w t : gated w = true -> CInv w -> CInv (wexec1 w t).
+Proof.
+  intros Hg I0. pose proof I0 as [J1 J2 J3 J4]. unfold wexec1, wstep. destruct t as [| | |p].
+  - (* consumer: never touches producers or pb *)
+    unfold cons_step. destruct (cons w) as [| | | |sig| |b| |b| |] eqn:Ec.
+    + destruct (mu w); [exact I0|]. constructor; cfield J1 J2 J3 J4.
+    + destruct (cstep (d w)) as [[l d'] got] eqn:Ecs. pose proof (cstep_prods (d w)) as Hp. rewrite Ecs in Hp. cbn in Hp.
+      destruct got as [b|]; constructor; cfield J1 J2 J3 J4.
+    + destruct (cancelled w) eqn:Eca; constructor; cfield J1 J2 J3 J4.
+    + constructor; cfield J1 J2 J3 J4.
+    + destruct (sig && negb (mu w)); [|exact I0]. constructor; cfield J1 J2 J3 J4.
+    + constructor; cfield J1 J2 J3 J4.
+    + constructor; cfield J1 J2 J3 J4.
+    + destruct (J3 eq_refl) as [Hd Hca]. constructor; cfield J1 J2 J3 J4.
+    + constructor; cfield J1 J2 J3 J4.
+    + exact I0.
+    + destruct (cstep (d w)) as [[l d'] got] eqn:Ecs. pose proof (cstep_prods (d w)) as Hp. rewrite Ecs in Hp. cbn in Hp.
+      pose proof (J2 eq_refl) as Hca.
+      destruct got as [b|]; [constructor; cfield J1 J2 J3 J4|].
+      apply cstep_fail_drained in Ecs.
+      destruct (waiter w); constructor; cfield J1 J2 J3 J4.
+  - (* cancel goroutine *)
+    unfold cancel_step. destruct (cg w).
+    + destruct (cancelled w) eqn:E; [|exact I0]. constructor; cfield J1 J2 J3 J4.
+    + destruct (mu w); [exact I0|]. constructor; cfield J1 J2 J3 J4.
+    + unfold wake. destruct (cons w) as [| | | |[|]| | | | | |] eqn:Ec; constructor; cfield J1 J2 J3 J4.
+    + constructor; cfield J1 J2 J3 J4.
+    + exact I0.
+  - (* closer: cancels only when everything is written *)
+    unfold closer_step. destruct (closer w) eqn:Ek.
+    + rewrite Hg. cbn. destruct (all_written w) eqn:Ea; cbn; [|exact I0].
+      constructor; cfield J1 J2 J3 J4.
+    + destruct (cons w) eqn:Ec; try exact I0. constructor; cfield J1 J2 J3 J4.
+    + exact I0.
+  - (* producers: no step once cancelled (everything is written) *)
+    destruct (cancelled w) eqn:Eca.
+    + rewrite (all_written_no_step w p (J1 eq_refl)). exact I0.
+    + assert (Hx : exiting (cons w) = true -> False) by (intros H; destruct (J3 H); congruence).
+      assert (Hy : is_trylast (cons w) = true -> False) by (intros H; apply J2 in H; congruence).
+      unfold prod_step. destruct (nth p (pb w) None) as [m|].
+      * unfold wake. destruct (cons w) as [| | | |[|]| | | | | |] eqn:Ec; constructor; cbn; rewrite ?Eca; intros; try discriminate;
+          try (exfalso; auto; fail); try (match goal with H : is_kdone _ = true |- _ => apply J4 in H; congruence end).
+      * destruct (pstep (d w) p) as [[l d']|]; [|exact I0].
+        destruct l as [wi|o|[|]|o]; cbn; try (destruct (waiter w)); constructor; cbn; rewrite ?Eca; intros; try discriminate;
+          try (exfalso; auto; fail); try (match goal with H : is_kdone _ = true |- _ => apply J4 in H; congruence end).
+Qed.
+
+Lemma wexec_cinv w sched : gated w = true -> CInv w -> CInv (wexec w sched).
+Proof.
+  revert w; induction sched as [|t r IH]; intros w Hg H; [exact H|].
+  change (wexec w (t :: r)) with (wexec (wexec1 w t) r). apply IH; [rewrite gated_exec1; auto|apply wstep_cinv; auto].
+Qed.
+
+(* Close drains the ring: when Close (called after the last Write returned) has returned, the
+   consumer's final TryNext - performed after the cancellation - found nothing deliverable *)
+Lemma close_drains wt n ps sched : let w := wrun wt true n ps sched in
+  closer w = KDone -> drained (d w) = true /\ all_written w = true /\ cons w = CDone.
+Proof.
+  intros w Hk. pose proof (wexec_cinv (winit wt true n ps) sched eq_refl (winit_cinv _ _ _)) as [J1 _ J3 J4].
+  fold (wrun wt true n ps sched) in *. fold w in J1, J3, J4.
+  assert (Hc : cons w = CDone) by (apply J4; rewrite Hk; reflexivity).
+  destruct (J3 ltac:(rewrite Hc; reflexivity)) as [Hd Hca]. auto.
+Qed.
+
+(* ... hence, whenever the ring-level drain theorem applies (no retried position, no overwrite of a
+   larger seq: everything except K2/K3), delivered + reported = written at the Writer *)
+Lemma close_accounting wt n ps sched : (0 < n)%nat -> let w := wrun wt true n ps sched in
+  closer w = KDone -> claims (d w) < two64 ->
+  g_casfail (d w) = 0 -> g_newer (d w) = 0 -> g_ovl (d w) = 0 ->
+  N.of_nat (length (wdelivered w)) + sumN (alerts (d w)) = N.of_nat (length (wreturned w)).
+Proof.
+  intros Hn w Hk Hc Z1 Z2 Z3.
+  destruct (close_drains wt n ps sched Hk) as (Hd & Ha & Hcons). fold w in Hd, Ha, Hcons.
+  destruct (wexec_oi (winit wt true n ps) sched (winit_oi _ _ _ _)) as (O1 & O2 & _).
+  fold (wrun wt true n ps sched) in O1, O2. fold w in O1, O2.
+  destruct (wrun_ring wt true n ps sched) as (s' & E). fold w in E.
+  unfold all_written in Ha. apply andb_true_iff in Ha as [Hp Hb].
+  rewrite E in *.
+  destruct (drain_partial n ps s' Hn Hc Z1 Z2 Z3 Hp Hd) as [Hacc _].
+  rewrite Hcons in O1. cbn in O1. rewrite app_nil_r in O1.
+  rewrite (concat_omsg_none _ Hb), app_nil_r in O2.
+  apply Permutation_length in O2. rewrite map_length in O2.
+  apply (f_equal (@length N)) in O1. rewrite map_length in O1. unfold bucket in *. rewrite O1, O2 in Hacc. exact Hacc.
 Qed.
